@@ -145,7 +145,55 @@ def gen_params(r):
             "serverinit": server_init(r.choice([1, 640]), r.choice([1, 480]), native, bytes(r.randrange(32, 127) for _ in range(r.choice([0, 1, 9]))))}
 
 
+class _Rx:
+    """a reactor that only records (api.connect must not start a thread here)"""
+    running = True
+
+    def callWhenRunning(self, f, *a, **k):
+        pass
+
+    def callFromThread(self, f, *a, **k):
+        pass
+
+
+def api_leg(ctx):
+    """credentials are per connection: an API client created WITHOUT a password has none, whatever earlier connections used;
+    a server that then asks for VNC authentication gets no response and the connection is closed"""
+    from unittest import mock
+    from vncdotool import api
+    r = ctx.rng
+    with mock.patch.object(api, "reactor", _Rx()):
+        for i in range(ctx.n(6, 40)):
+            pw = "".join(chr(r.randrange(33, 127)) for _ in range(r.randint(1, 9)))
+            first = api.connect("host%d" % i, password=pw, username=r.choice([None, "user"]))
+            second = api.connect("other%d" % i)
+            ver = r.choice([b"RFB 003.003\n", b"RFB 003.007\n", b"RFB 003.008\n"])
+            chal = bytes(r.randrange(256) for _ in range(16))
+            p = second.factory.buildProtocol(None)
+            tr = []
+            p.transport = FakeTransport(tr)
+            errs = []
+            second.factory.deferred.addErrback(lambda f: errs.append(f) and None)
+            p.connectionMade()
+            stream = ver + (struct.pack("!I", 2) if ver.endswith(b"003\n") else bytes([1, 2])) + chal
+            exc = None
+            try:
+                with Budget(5):
+                    p.dataReceived(stream)
+            except BaseException as e:  # noqa
+                exc = exc_class(e)
+            ws = [t[1] for t in tr if t[0] == "write"]
+            ctx.count("api_passwordless_after_password")
+            ctx.case(None, key=("api", i))
+            responded = any(len(w_) == 16 for w_ in ws)
+            if responded or not p.transport.closed or exc:
+                ctx.violate("no-password-proceeds", {"input": {"earlier_connection_password": pw, "this_connection": "api.connect(server) without password", "banner": ver.decode().strip(), "challenge": hx(chal)},
+                                                     "observed": "wrote %r, closed=%s, raised=%s" % ([hx(w_) for w_ in ws[1:]], p.transport.closed, exc),
+                                                     "how": "vncdotool.api.connect twice (reactor replaced by a recorder), then the second client's protocol against a server that asks for VNC authentication"})
+
+
 def run(ctx):
+    api_leg(ctx)
     r = ctx.rng
     n = ctx.n(700, 20000)
     lines_all, meta = [], []
